@@ -3,9 +3,15 @@
    size), the complete trees f1 before it at that level, the junk, the next tree x and its following siblings f2, and for every
    open master what still follows inside its parent ([d_rights], innermost first, the last entry being the top level).
    [undamaged d] is the same document without the junk; its conformance is the only structural hypothesis.
-   PARTIAL: declared paths without global placeholders; "cannot begin a valid tag" is the semantic hypothesis [junk_run]:
-   at the junk's first byte and at each later junk position the header check fails in the reader's state there. *)
-From Ebml Require Import Base Tools Spec Writer Reader Pure Encode Proofs.Tactics Proofs.ReaderIO Proofs.Refine Proofs.PureProofs Proofs.RoundTrip Proofs.Nesting Proofs.Partial Proofs.Recover.
+   PARTIAL: two classes of documents.  (1) [conf_zdoc]: declared paths without global placeholders, masters of known or
+   unknown size (Proofs/Recover.v).  (2) [kconf_zdoc]: every master of known size, declared paths only have to MATCH the chain
+   of masters an element sits in, so global placeholders are allowed — global elements at any depth, recursive masters
+   (Proofs/RecoverKnown.v); there the junk has to come after the position in the document is determined ([jstart]: in reading
+   order an element with a placeholder-free path has been read before the junk, the first such being a root element;
+   [C14_known_root_start]: e.g. the document starts with a root element).  In both classes "cannot begin a valid tag" is the
+   semantic hypothesis [junk_run]: at the junk's first byte and at each later junk position the header check fails in the
+   reader's state there. *)
+From Ebml Require Import Base Tools Spec Writer Reader Pure Encode Proofs.Tactics Proofs.ReaderIO Proofs.Refine Proofs.PureProofs Proofs.RoundTrip Proofs.RoundTripKnown Proofs.Nesting Proofs.Partial Proofs.PartialKnown Proofs.Recover Proofs.RecoverKnown.
 
 (* the complete run: the tags before the junk unchanged (with the Ends of the masters that are complete there), exactly one
    error, try_recover() succeeds, then all remaining tags; the premise "the following tag still fits inside every enclosing
@@ -96,4 +102,122 @@ Example C14_ex_run :
   p_run C14_cfg (enc_zdoc (undamaged C14_doc)) [RAll] =
     [OItem (TStart 129) 0; OItem (TElem 16641 (VU 5)) 2;
      OItem (TStart 16643) 6; OItem (TElem 16642 (VB [7])) 9; OItem (TEnd 16643) 6; OItem (TElem 16641 (VU 6)) 13; OItem (TEnd 129) 0; ONone].
+Proof. vm_compute. repeat split; reflexivity. Qed.
+
+(* ------------------------------------------------------------------ the second class: known sizes, global placeholders *)
+(* the complete run of a damaged known-size document: all pending masters end at the junk ([d_k1 d] is their number), exactly
+   one error, try_recover() succeeds and enlarges EVERY open master by the length of the junk, then all remaining tags *)
+Theorem C14_damaged_run_known_partial : forall c d, strict c -> c_buffered c = [] -> c_emit_eof c = true ->
+  kconf_zdoc c (undamaged d) -> jstart c d -> d_junk d <> [] -> wf_bytes (d_junk d) ->
+  room (d_stk d) (d_off2 d + N.of_nat (length (d_junk d)) + tlen (d_x d)) ->
+  junk_run c (junk_state d) (length (d_junk d)) ->
+  exists e0, p_run c (enc_ddoc d) [RAll; RRecover; RAll] = out_ddoc d e0.
+Proof. exact damaged_run_known'. Qed.
+
+(* ... and apart from that error and the recovery, the tag sequence is exactly that of the undamaged document *)
+Theorem C14_recovery_loses_nothing_known_partial : forall c d, strict c -> c_buffered c = [] -> c_emit_eof c = true ->
+  kconf_zdoc c (undamaged d) -> jstart c d -> d_junk d <> [] -> wf_bytes (d_junk d) ->
+  room (d_stk d) (d_off2 d + N.of_nat (length (d_junk d)) + tlen (d_x d)) ->
+  junk_run c (junk_state d) (length (d_junk d)) ->
+  out_tags (p_run c (enc_ddoc d) [RAll; RRecover; RAll]) = out_tags (p_run c (enc_zdoc (undamaged d)) [RAll]).
+Proof. exact recovery_loses_nothing_known'. Qed.
+
+(* the undamaged known-size document, seen from the same position, reads as its items *)
+Theorem C14_undamaged_run_known_partial : forall c z, strict c -> c_buffered c = [] -> c_emit_eof c = true ->
+  kconf_zdoc c z -> zstart c z -> p_run c (enc_zdoc z) [RAll] = out_zdoc z.
+Proof. exact zipper_run_known. Qed.
+
+(* the start hypothesis holds in particular when the very first element of the document is a root element (and stands
+   before the junk) *)
+Theorem C14_known_root_start : forall c d,
+  match ddoc_first_id d with Some id => get_path (c_sp c) id = [] | None => False end -> jstart c d.
+Proof. exact ddoc_root_start. Qed.
+
+(* Root 129; Void 236 global at depth >= 1, declared (1-); Rec 131 a recursive master, declared Root/(-)/Rec; Leaf 16642 below Rec
+   at any depth *)
+Definition C14k_sp : spec :=
+  [ {| e_id := 129; e_ty := DMaster; e_path := [] |};
+    {| e_id := 236; e_ty := DBinary; e_path := [PGlobal (Some 1) None] |};
+    {| e_id := 131; e_ty := DMaster; e_path := [PId 129; PGlobal None None] |};
+    {| e_id := 16642; e_ty := DBinary; e_path := [PId 129; PGlobal None None; PId 131] |} ].
+Definition C14k_cfg : cfg :=
+  {| c_sp := C14k_sp; c_allow_id := false; c_allow_hier := false; c_allow_over := false; c_max := Some 4000000000; c_buffered := [];
+     c_emit_eof := true |}.
+Definition C14k_void : rtree := RLeaf 236 (VB [0]) [0] 1%nat.
+Definition C14k_void3 : rtree := RLeaf 236 (VB [1; 2; 3]) [1; 2; 3] 1%nat.
+Definition C14k_leaf : rtree := RLeaf 16642 (VB [7]) [7] 2%nat.
+(* Root (33) { Void; Rec (25) { Leaf; Rec (15) { Leaf; <junk FF FE FD>; Void[1;2;3]; Leaf }; Void }; Void } *)
+Definition C14k_doc : ddoc :=
+  {| d_levels := [ {| lv_f := []; lv_id := 129; lv_sl := 1; lv_size := Some 33 |};
+                   {| lv_f := [C14k_void]; lv_id := 131; lv_sl := 1; lv_size := Some 25 |};
+                   {| lv_f := [C14k_leaf]; lv_id := 131; lv_sl := 1; lv_size := Some 15 |} ];
+     d_f1 := [C14k_leaf]; d_junk := [255; 254; 253];
+     d_x := C14k_void3; d_f2 := [C14k_leaf];
+     d_rights := [ [C14k_void]; [C14k_void]; [] ] |}.
+
+Example C14_ex_known_hyps :
+  strict C14k_cfg /\ kconf_zdoc C14k_cfg (undamaged C14k_doc) /\ jstart C14k_cfg C14k_doc /\
+  room (d_stk C14k_doc) (d_off2 C14k_doc + N.of_nat (length (d_junk C14k_doc)) + tlen (d_x C14k_doc)) /\
+  junk_run C14k_cfg (junk_state C14k_doc) (length (d_junk C14k_doc)).
+Proof.
+  assert (I1 : idok 129) by (exists 1%nat, 1; repeat split; cbn; lia).
+  assert (I3 : idok 131) by (exists 1%nat, 3; repeat split; cbn; lia).
+  assert (I5 : idok 236) by (exists 1%nat, 108; repeat split; cbn; lia).
+  assert (I7 : idok 16642) by (exists 2%nat, 258; repeat split; cbn; lia).
+  assert (V : forall ids bs, wf_bytes bs -> N.of_nat (length bs) < 126 -> path_matches [PGlobal (Some 1) None] ids = true ->
+            kconf C14k_cfg ids (RLeaf 236 (VB bs) bs 1%nat)).
+  { intros ids bs Hw Hl Hp. cbn [kconf]. split; [exact I5|]. split; [lia|]. split; [change (2 ^ (7 * N.of_nat 1) - 1) with 127; lia|].
+    split; [exact Hw|]. split; [exists DBinary; split; [reflexivity|split; [discriminate|reflexivity]]|]. split; [exact Hp|]. cbn. lia. }
+  assert (L : forall ids, path_matches [PId 129; PGlobal None None; PId 131] ids = true -> kconf C14k_cfg ids C14k_leaf).
+  { intros ids Hp. cbn [kconf C14k_leaf]. split; [exact I7|]. split; [lia|]. split; [cbn; lia|]. split; [repeat constructor; lia|].
+    split; [exists DBinary; split; [reflexivity|split; [discriminate|reflexivity]]|]. split; [exact Hp|vm_compute; discriminate]. }
+  assert (V1 : forall ids, path_matches [PGlobal (Some 1) None] ids = true -> kconf C14k_cfg ids C14k_void).
+  { intros ids Hp. apply V; [repeat constructor; lia|vm_compute; reflexivity|exact Hp]. }
+  assert (V3 : forall ids, path_matches [PGlobal (Some 1) None] ids = true -> kconf C14k_cfg ids C14k_void3).
+  { intros ids Hp. apply V; [repeat constructor; lia|vm_compute; reflexivity|exact Hp]. }
+  split; [repeat split|]. split; [|split; [|split]].
+  - split.
+    + cbn [undamaged z_levels z_rights C14k_doc d_levels d_f1 d_x d_f2 d_rights hd kconf_levels lv_f lv_id lv_sl lv_size app].
+      split; [constructor|]. split; [exact I1|]. split; [reflexivity|]. split; [reflexivity|].
+      split; [exists 33; split; [reflexivity|vm_compute; discriminate]|]. split; [split; [lia|vm_compute; reflexivity]|].
+      split; [vm_compute; discriminate|].
+      split; [constructor; [apply V1; reflexivity|constructor]|]. split; [exact I3|]. split; [reflexivity|]. split; [reflexivity|].
+      split; [exists 25; split; [reflexivity|vm_compute; discriminate]|]. split; [split; [lia|vm_compute; reflexivity]|].
+      split; [vm_compute; discriminate|].
+      split; [constructor; [apply L; reflexivity|constructor]|]. split; [exact I3|]. split; [reflexivity|]. split; [reflexivity|].
+      split; [exists 15; split; [reflexivity|vm_compute; discriminate]|]. split; [split; [lia|vm_compute; reflexivity]|].
+      split; [vm_compute; discriminate|exact I].
+    + cbn [undamaged z_levels z_rights C14k_doc d_levels d_f1 d_x d_f2 d_rights app]. apply krights_ok_cons. split.
+      * constructor; [apply L; reflexivity|constructor; [apply V3; reflexivity|constructor; [apply L; reflexivity|constructor]]].
+      * split; [vm_compute; repeat (constructor; [eexists; split; [reflexivity|discriminate]|]); constructor|].
+        split; [vm_compute; eexists; split; reflexivity|].
+        apply krights_ok_cons. split; [constructor; [apply V1; reflexivity|constructor]|].
+        split; [vm_compute; repeat (constructor; [eexists; split; [reflexivity|discriminate]|]); constructor|].
+        split; [vm_compute; eexists; split; reflexivity|].
+        apply krights_ok_cons. split; [constructor; [apply V1; reflexivity|constructor]|].
+        split; [vm_compute; repeat (constructor; [eexists; split; [reflexivity|discriminate]|]); constructor|].
+        split; [vm_compute; eexists; split; reflexivity|].
+        apply krights_ok_cons. split; [constructor|]. split; [constructor|reflexivity].
+  - apply C14_known_root_start. reflexivity.
+  - vm_compute. repeat constructor; discriminate.
+  - split; [eexists; vm_compute; reflexivity|]. cbn [length Nat.sub junk C14k_doc d_junk]. repeat split; eexists; vm_compute; reflexivity.
+Qed.
+
+(* the junk stands inside three nested known-size masters (Root, and the recursive master Rec twice), between a Leaf and a
+   global element (Void, declared (1-)); all three masters grow by 3, nothing but the junk is lost *)
+Example C14_ex_known_run :
+  enc_ddoc C14k_doc = [129; 161; 236; 129; 0; 131; 153; 65; 2; 64; 1; 7; 131; 143; 65; 2; 64; 1; 7; 255; 254; 253;
+                       236; 131; 1; 2; 3; 65; 2; 64; 1; 7; 236; 129; 0; 236; 129; 0] /\
+  p_run C14k_cfg (enc_ddoc C14k_doc) [RAll; RRecover; RAll] =
+    [OItem (TStart 129) 0; OItem (TElem 236 (VB [0])) 2; OItem (TStart 131) 5; OItem (TElem 16642 (VB [7])) 7;
+     OItem (TStart 131) 12; OItem (TElem 16642 (VB [7])) 14; OErr (RInvalidTagId 19 255); ORecOk;
+     OItem (TElem 236 (VB [1; 2; 3])) 22; OItem (TElem 16642 (VB [7])) 27; OItem (TEnd 131) 12; OItem (TElem 236 (VB [0])) 32;
+     OItem (TEnd 131) 5; OItem (TElem 236 (VB [0])) 35; OItem (TEnd 129) 0; ONone] /\
+  p_run C14k_cfg (enc_zdoc (undamaged C14k_doc)) [RAll] =
+    [OItem (TStart 129) 0; OItem (TElem 236 (VB [0])) 2; OItem (TStart 131) 5; OItem (TElem 16642 (VB [7])) 7;
+     OItem (TStart 131) 12; OItem (TElem 16642 (VB [7])) 14;
+     OItem (TElem 236 (VB [1; 2; 3])) 19; OItem (TElem 16642 (VB [7])) 24; OItem (TEnd 131) 12; OItem (TElem 236 (VB [0])) 29;
+     OItem (TEnd 131) 5; OItem (TElem 236 (VB [0])) 32; OItem (TEnd 129) 0; ONone] /\
+  out_ddoc C14k_doc (RInvalidTagId 19 255) = p_run C14k_cfg (enc_ddoc C14k_doc) [RAll; RRecover; RAll] /\
+  out_zdoc (undamaged C14k_doc) = p_run C14k_cfg (enc_zdoc (undamaged C14k_doc)) [RAll].
 Proof. vm_compute. repeat split; reflexivity. Qed.
